@@ -303,11 +303,14 @@ pub fn build_tree(w: &mut World, nodes: &[TreeNode], seed: u64) -> Result<Vec<(u
             // build honestly in a scratch position, then tamper and reseal
             let ledger_parent = pidx;
             let idx = w.honest_child(ledger_parent, &mut rng, nd.ntx, nd.gt, nd.dt, "to-tamper")?;
-            let mut b = w.block(idx);
-            b.burnfee += 1;
-            reseal(&mut b, &w.keys[0].clone(), false);
-            let idx2 = w.register(b, false, "invalid:burnfee");
-            map.push((nd.uid, idx2));
+            let b = w.block(idx);
+            match tamper_block(&b, &nd.invalid, &w.keys[0].clone()) {
+                Some(tb) => {
+                    let idx2 = w.register(tb, false, &format!("invalid:{}", nd.invalid));
+                    map.push((nd.uid, idx2));
+                }
+                None => map.push((nd.uid, idx)),
+            }
         }
     }
     Ok(map)
